@@ -74,6 +74,16 @@ def instances(tier, seed):
     for t in TOKENS:
         for p in relevant_priors([t]):
             out.append(("core", mk([t], p, maxrank)))
+    # --- inductive-step lemma: ONE axis token (and one token next to a multi-axis one) from an
+    # *arbitrary* memo over {a, b, v}: whether a / b are bound is solver-chosen ('#a #b' binds a
+    # name iff its size is not 1), v is bound with either broadcast flag and symbolic rank 0..3
+    for arb in (["#a #b", "*#v"], ["#a #b", "*v"], ["#a #b"]):
+        for t in TOKENS:
+            out.append(("core", mk([t], arb, maxrank)))
+        for t in SINGLE:
+            for m in ("*v", "*#v"):
+                out.append(("core" if tier == "thorough" else "ext", mk([t, m], arb, maxrank)))
+                out.append(("core" if tier == "thorough" else "ext", mk([m, t], arb, maxrank)))
     # --- a symbolic axis on one side of the multi-axis specifier naming an axis bound on the other
     for toks in (["a", "*v", "a+1"], ["a+1", "*v", "a"], ["a+1", "...", "a"], ["a", "...", "2*a"], ["b", "a", "*#v", "a-b"],
                  ["a-b", "*v", "b", "a"], ["#a", "*v", "a+1"]):
@@ -111,6 +121,7 @@ BOUNDS = {
     "quick": dict(rank="0..4 (selector)", sizes="unbounded >= 0 (solver variables)",
                   dim_strings="all <=2-token strings over %d tokens, seeded sample of 3/4-token strings" % len(TOKENS),
                   prior="0..2 prior accepted checks from a fixed menu, own symbolic shapes of rank <=3",
+                  inductive_step="every single token from an arbitrary memo over {a,b,v} (bound-ness of a and b solver-chosen, v with either flag and rank 0..3)",
                   nonlinear="sizes <= 6 when the string contains a*b"),
     "thorough": dict(rank="0..5 (selector)", sizes="unbounded >= 0 (solver variables)",
                      dim_strings="all <=2-token strings, seeded sample of 3/4/5-token strings",
